@@ -10,7 +10,8 @@ echo "== demo on pristine"; timeout 600 /venv/bin/python $DEMO > /tmp/$n.demo0 2
 git apply $PATCH || { echo "PATCH DOES NOT APPLY"; git -C /repo worktree remove --force $d; exit 8; }
 if git diff --name-only | grep -qE '\.(c|cpp|cxx|h|hpp)$'; then /venv/bin/python /tmp/wt_${n}_tools/rebuild_inplace.py $d > /dev/null; fi
 echo "== demo with patch"; timeout 600 /venv/bin/python $DEMO > /tmp/$n.demo1 2>&1; r1=$?; echo "exit $r1"; tail -3 /tmp/$n.demo1
-echo "== baseline"; timeout 2400 python3 /verif/tools/baseline.py $d 2>&1 | tail -4
+if [ -n "$BASELINE_FROM" ] && grep -q "missing: 0" $BASELINE_FROM; then echo "== baseline (same patch, taken from the earlier run $BASELINE_FROM)"; grep "stable_pass" $BASELINE_FROM | tail -1
+else echo "== baseline"; timeout 2400 python3 /verif/tools/baseline.py $d 2>&1 | tail -4; fi
 echo "== check $P ($TIER) against patched tree"
 cd /verif; VERIF_REPO=$d timeout 3000 ./check $P --tier $TIER > /tmp/$n.check 2>&1; rc=$?; echo "check exit $rc"; grep -c '^VIOLATION' /tmp/$n.check; grep -A2 '^VIOLATION' /tmp/$n.check | head -12; sed -n '/unlisted violation/,$p' /tmp/$n.check | head -20
 git -C /repo worktree remove --force $d; rm -rf /tmp/wt_${n}_tools /tmp/$n.demo0 /tmp/$n.demo1
